@@ -858,7 +858,8 @@ func (u *Unmarshaler) processNamedFieldWithoutValue(fieldType reflect.Type, valu
 	case reflect.Array, reflect.Map, reflect.Slice:
 		if !opts.optional() {
 			return u.processFieldNotFromString(fieldType, value, valueWithParent{
-				value: emptyMap,
+				// 每次用新的空映射：包级的 emptyMap 会被原样装入 map[string]any 字段，调用方一写入就污染之后的解组
+				value: map[string]any{},
 			}, opts, fullName)
 		}
 	case reflect.Struct:
@@ -873,7 +874,8 @@ func (u *Unmarshaler) processNamedFieldWithoutValue(fieldType reflect.Type, valu
 			}
 
 			return u.processFieldNotFromString(fieldType, value, valueWithParent{
-				value: emptyMap,
+				// 每次用新的空映射：包级的 emptyMap 会被原样装入 map[string]any 字段，调用方一写入就污染之后的解组
+				value: map[string]any{},
 			}, opts, fullName)
 		}
 	default:
